@@ -875,6 +875,81 @@ def r13_12(chk, P):
     return n
 
 
+def r13_13(chk, P):
+    chk.rule('R13.13', 'an ownership flag is set before the release that consults it: for every release function that frees its object '
+             'only when a field of it is set (discovered: a free of the parameter control-dependent on `param->FIELD`; '
+             'vorbis_staticbook_destroy / allocedp), every caller that allocates the object itself (calloc/malloc into a local) '
+             'reaches each call of the release function only on paths on which it has stored a non-zero value into that field '
+             '(K2 path flags).  An early exit taken before the flag is set hands the release function an object it will not free')
+    import k2
+    guards = {}     # release function key -> (param index, field)
+    for F in P.functions():
+        for c in F.calls():
+            if F.ex[c]['callee'].get('d') not in ('free', '_ogg_free') or not F.ex[c]['c']:
+                continue
+            a = F.ex[F.strip_casts(F.ex[c]['c'][0])]
+            if a['k'] != 'ref' or a['decl'].get('kind') != 'param':
+                continue
+            pid = a['decl']['id']
+            for cc, pol in common.controlling_conditions(F, c):
+                cn = F.ex[F.strip_casts(cc)]
+                if pol and cn['k'] == 'member':
+                    b = F.ex[F.strip_casts(cn['c'][0])]
+                    if b['k'] == 'ref' and b['decl'].get('id') == pid:
+                        pi = [i for i, p_ in enumerate(F.params) if p_['id'] == pid][0]
+                        guards[P.key(F)] = (pi, cn['field'], cn.get('record'))
+    chk.require(guards, 'no flag-guarded release function found')
+    n = 0
+    for G in P.functions():
+        for rk, (pi, fld, rec) in guards.items():
+            calls = [c for c in G.calls() if rk in P.call_targets(G, c) and pi < len(G.ex[c]['c'])]
+            if not calls:
+                continue
+            # objects this function allocates itself
+            for c in calls:
+                a = G.ex[G.strip_casts(G.ex[c]['c'][pi])]
+                if a['k'] != 'ref' or a['decl'].get('kind') != 'var':
+                    continue
+                vid = a['decl']['id']
+                fresh = False
+                for q in G.pos:
+                    nd = G.ex[q]
+                    rhs = None
+                    if nd['k'] == 'decl':
+                        rhs = next((v['init'] for v in nd['vars'] if v.get('id') == vid and v.get('init')), None)
+                    elif nd['k'] == 'assign' and nd['op'] == '=':
+                        l = G.ex[G.strip_casts(nd['c'][0])]
+                        if l['k'] == 'ref' and l['decl'].get('id') == vid:
+                            rhs = nd['c'][1]
+                    if rhs is not None:
+                        r = G.ex[G.strip_casts(rhs)]
+                        if r['k'] == 'call' and r['callee'].get('d') in ('_ogg_calloc', '_ogg_malloc', 'calloc', 'malloc'):
+                            fresh = True
+                if not fresh:
+                    continue
+
+                def marks(A, env, e, vid=vid, fld=fld):
+                    nd = A.ex[e]
+                    if nd['k'] != 'assign' or nd['op'] != '=':
+                        return False
+                    l = A.ex[G.strip_casts(nd['c'][0])]
+                    if l['k'] == 'member' and l['field'] == fld:
+                        b = A.ex[G.strip_casts(l['c'][0])]
+                        if b['k'] == 'ref' and b['decl'].get('id') == vid:
+                            v = A.peek(env, nd['c'][1])
+                            return v.const() is not None and v.const() != 0
+                    return False
+                A, h = k2.analyse(P, G, [('marked', marks, True)], watch=lambda A_, e_, c=c: e_ == c)
+                sets = h.at.get(c, set())
+                bad = [fl for fl in sets if 'marked' not in fl]
+                n += 1
+                chk.ob('R13.13', G.name, f'flag-set-before-release:{fld}@{G.loc(c)}', bool(sets) and not bad, G.where(c),
+                       f'`{G.s(c)}`: {fld} is set on all {len(sets)} path classes that reach the call' if sets and not bad else
+                       f'`{G.s(c)}` is reachable on a path that has not stored {fld}: {P.fn[rk].name} frees the object only when {fld} is '
+                       'set, so the block allocated here leaks')
+    return n
+
+
 def run(chk, P):
     K = k6.K6(P)
     res = r13_1(chk, P, K)
@@ -895,6 +970,8 @@ def run(chk, P):
     chk.floor('R13.10', 1)
     r13_12(chk, P)
     chk.floor('R13.12', 1)
+    r13_13(chk, P)
+    chk.floor('R13.13', 1)
     import typestate
     typestate.c13(chk, P)
     chk.floor('R13.11', 1)
